@@ -25,8 +25,20 @@ IDEAL_MODELS = ["projective", "klein", "poincare", "halfspace"]
 VIAS = ["Point", "get_point"]
 
 TOL = 1e-9       # well-conditioned quantities: TOL * (1 + |value|)
-TOL_SQRT = 1e-6  # sqrt-eps class: arccosh near 1, conformal coordinates of ideal points
+TOL_SQRT = 1e-6  # sqrt-eps class: arccosh near 1 (closed-form model metrics evaluated by the ORACLE), conformal coordinates of ideal points
 EPS = 2.2e-16
+
+
+def dist_own(model, a, b):
+    """The model's own closed-form metric on coordinates the LIBRARY reported.  The hyperboloid model is the future
+    sheet x0 > 0 of <x,x> = -1 and its metric is arccosh(-<x,y>) (no absolute value: the oracle's projective form
+    |<x,y>| would forgive coordinates on the past sheet); a product that is not >= 1 up to rounding gives NaN."""
+    if model != "hyperboloid":
+        return hyp.dist_in_model(model, a, b)
+    a, b = np.asarray(a, dtype=float), np.asarray(b, dtype=float)
+    c = -hyp.mink(a, b)
+    with np.errstate(all="ignore"):
+        return np.where(c >= 1.0 - 1e-9, np.arccosh(np.maximum(c, 1.0)), np.nan)
 
 
 def acosh_tol(d, delta):
@@ -131,9 +143,9 @@ def chart_error(model, got, klein, ideal):
         err = float(np.max(hyp.proj_diff(got, want)))
         scale = 1.0
     elif model == "hyperboloid":
-        # the sheet is not fixed by the property: the library keeps the sign of the representative
-        e = np.minimum(np.max(np.abs(got - want), axis=-1), np.max(np.abs(got + want), axis=-1))
-        err = float(np.max(e))
+        # the hyperboloid model is the future sheet (x0 > 0): the coordinates of a point are unique, whatever the sign
+        # of the representative the point was built from (otherwise the model's metric arccosh(-<x,y>) fails on them)
+        err = float(np.max(np.abs(got - want)))
         scale = 1.0 + float(np.max(np.abs(want)))
     else:
         err = float(np.max(np.abs(got - want)))
@@ -148,8 +160,8 @@ def chart_error(model, got, klein, ideal):
 
 
 def check_all_charts(pt, klein, ideal, where, v):
-    """Read every chart twice (forward and reverse order: reading hyperboloid coordinates
-    renormalises the stored representative in place, which must not change the point)."""
+    """Read every chart twice (forward and reverse order: a read -- some of them used to renormalise the
+    stored representative in place -- must not change the point nor what a later read returns)."""
     models = IDEAL_MODELS if ideal else hyp.MODELS
     t = 0
     worst = 0.0
@@ -244,10 +256,13 @@ def case_pair(case):
 
     # the five closed-form metrics on oracle coordinates
     orac = {m: float(hyp.dist_in_model(m, hyp.klein_to(m, kp), hyp.klein_to(m, kq))) for m in hyp.MODELS}
-    d0 = orac["klein"]
-    tol = TOL_SQRT if same else TOL * (1.0 + d0)
+    d0 = 0.0 if same else orac["klein"]
+    # equal points are at distance 0: the library's value is held to TOL; the ORACLE's closed-form metrics evaluate
+    # arccosh at 1 +- eps (up to sqrt(2 eps) = 2.1e-8 each) and are only comparable in the sqrt-eps class
+    tol = TOL * (1.0 + d0)
+    tol_cf = TOL_SQRT if same else tol
     for m, d in orac.items():
-        if not abs(d - d0) <= tol:
+        if not abs(d - d0) <= tol_cf:
             raise AssertionError("oracle metrics disagree: %r" % (orac,))   # harness problem, not a defect
     nan_self = 0
     for (i, (mp, rp)), (j, (mq, rq)) in itertools.product(enumerate(VARIANTS), repeat=2):
@@ -273,21 +288,23 @@ def case_pair(case):
             continue
         if d < 0:
             add("metric/distance/negative", "%s = %r" % (who, d))
+        if same and not d <= tol:
+            add("metric/distance-self/value", "%s = %.12g: the two points are equal, their distance is 0 (tol %.1g)" % (who, d, tol))
         for m, dm in orac.items():
-            if not abs(d - dm) <= tol:
+            if not abs(d - dm) <= tol_cf:
                 add("metric/distance-self/value" if same else "metric/distance/%s-metric" % m,
                     "%s = %.12g, closed-form %s metric on oracle coordinates gives %.12g" % (who, d, m, dm))
         d2 = float(_dist(Q, P))
         t += 1
-        if d2 == d2 and not abs(d - d2) <= (TOL_SQRT if same else TOL):
+        if d2 == d2 and not abs(d - d2) <= TOL:
             add("metric/symmetry", "%s = %.15g but reversed %.15g" % (who, d, d2))
         if j in (i, (i + 4) % len(VARIANTS)):
             # the model's own closed-form metric on the coordinates the library reports
             for m in hyp.MODELS:
                 cp, cq = P.coords(m), Q.coords(m)
                 t += 2
-                dm = float(hyp.dist_in_model(m, cp, cq))
-                if not abs(d - dm) <= tol:
+                dm = float(dist_own(m, cp, cq))
+                if not abs(d - dm) <= tol_cf:            # NaN (hyperboloid coordinates on different sheets) fails too
                     add("metric/own-coordinates/%s" % m,
                         "%s = %.12g, closed-form %s metric on the library's own coordinates gives %.12g" % (who, d, m, dm))
             # the coordinate arrays the caller kept: still the points' coordinates after the queries above, so the
@@ -296,12 +313,12 @@ def case_pair(case):
             ap, aq = kept.items[0][0], kept.items[1][0]
             if mp == mq:
                 dm = float(hyp.dist_in_model(mp, ap, aq))
-                if not abs(d - dm) <= tol:
+                if not abs(d - dm) <= tol_cf:
                     add("caller-array/closed-form-metric/%s" % mp,
                         "%s = %.12g, closed-form %s metric on the arrays the points were built from gives %.12g" % (who, d, mp, dm))
             d3 = float(_dist(construct(ap, mp, "get_point"), construct(aq, mq, "Point")))
             t += 3
-            if d3 == d3 and not abs(d - d3) <= (2 * TOL_SQRT if same else TOL):
+            if d3 == d3 and not abs(d - d3) <= TOL:
                 add("caller-array/second-point/%s" % mp,
                     "%s = %.12g, but second points built from the same two kept arrays are at distance %.12g" % (who, d, d3))
             kept.check(v, who + " after building second points", seen)
@@ -330,13 +347,18 @@ def case_triangle(case):
     if nan:
         v.append({"key": "metric/distance-self/nan",
                   "msg": "H^%d: d(x,x) is NaN for %d of %d lattice points (variant shift %d)" % (n, nan, N, shift)})
+    elif not np.all(np.abs(np.diag(D)) <= TOL):
+        i = int(np.argmax(np.abs(np.diag(D))))
+        v.append({"key": "metric/distance-self/value",
+                  "msg": "H^%d: x.distance(x) = %r for x = %r (variant shift %d): the same object on both sides, expected 0 (tol %.1g)" % (
+                      n, D[i, i], pts[i].tolist(), shift, TOL)})
     if not np.all(np.isfinite(D)):
         i, j = np.argwhere(~np.isfinite(D))[0]
         v.append({"key": "metric/distance/nan", "msg": "H^%d: d(%r,%r) = %r" % (n, pts[i].tolist(), pts[j].tolist(), D[i, j])})
         return {"v": v, "t": N * N, "o": "nan", "nt": True}
     # d(i,k) <= d(i,j) + d(j,k) for all ordered triples
     slack = D[:, :, None] + D[None, :, :] - D[:, None, :]
-    bad = np.argwhere(slack < -1e-7)
+    bad = np.argwhere(slack < -TOL)
     if len(bad):
         i, j, k = bad[0]
         v.append({"key": "metric/triangle-inequality",
@@ -394,7 +416,7 @@ def case_shape(case):
         elif d.dtype.kind != "f":
             v.append({"key": "shape/distance-type", "msg": "%s: distance dtype %s" % (who, d.dtype)})
         else:
-            tol = np.where(want < 1e-3, TOL_SQRT, TOL * (1.0 + want))
+            tol = TOL * (1.0 + want)
             if not np.all(np.abs(d - want) <= tol):     # NaN fails too
                 v.append({"key": "shape/distance/value",
                           "msg": "%s: distance to the shifted composite (%s) differs from the per-pair oracle by %r" % (
@@ -410,8 +432,8 @@ def case_shape(case):
                 nan += int(np.sum(np.isnan(d)))
                 v.append({"key": "metric/distance-self/nan",
                           "msg": "%s: distance to %s has %d NaN entries of %d" % (who, label, int(np.sum(np.isnan(d))), count)})
-            elif not np.all(np.abs(d) <= TOL_SQRT):
-                v.append({"key": "metric/distance-self/value", "msg": "%s: distance to %s is %r" % (who, label, float(np.max(np.abs(d))))})
+            elif not np.all(np.abs(d) <= TOL):
+                v.append({"key": "metric/distance-self/value", "msg": "%s: distance to %s is %r (equal points: expected 0, tol %.1g)" % (who, label, float(np.max(np.abs(d))), TOL)})
     # the composite arrays the caller kept are unchanged, and a second composite built from the first kept array
     # (through the other constructor) is the same composite
     kept.check(v, who, set())
@@ -530,7 +552,7 @@ def case_caller(case):
         def tol_for(want, ch2):
             want, ch2 = np.broadcast_arrays(np.asarray(want, dtype=float), np.asarray(ch2, dtype=float))
             if not low:
-                return np.where(want < 1e-3, TOL_SQRT, TOL * (1.0 + want))
+                return TOL * (1.0 + want)
             return np.array([acosh_tol(float(w), 64.0 * EPS32 * float(c)) + TOL32 * (1.0 + float(w))
                              for w, c in zip(want.ravel(), ch2.ravel())]).reshape(want.shape)
         dtol = tol_for(np.zeros(shape), ch * ch)
@@ -665,7 +687,7 @@ def case_far(case):
         if m == "projective":
             err, tol = float(hyp.proj_diff(got, w)), 1e-9 * cond
         elif m == "hyperboloid":
-            err = float(min(np.max(np.abs(got - w)), np.max(np.abs(got + w)))) / float(np.max(np.abs(w)))
+            err = float(np.max(np.abs(got - w))) / float(np.max(np.abs(w)))       # future sheet: no sign freedom
             tol = 1e-9 * cond
         else:
             err = float(np.max(np.abs(got - w)))
@@ -697,15 +719,16 @@ def case_far(case):
             if not abs(dm - d0) <= tolm:
                 v.append({"key": "far/model-metric/%s" % m, "msg": "%s: %s closed-form metric on the library's coordinates gives %r, distance is %r" % (where, m, dm, d0)})
     # the point itself, equal copies of it entered through every model, and very close points on the same ray:
-    # the inner product of the two unit hyperboloid vectors is cosh(s) + e with |e| <~ eps cosh^2 R, so the
-    # reported distance can only be demanded to arccosh(1 + e) ~ sqrt(2 e) -- but it must be a finite,
-    # non-negative number, never NaN (the product rounding to slightly below 1 is not an excuse)
+    # the unit hyperboloid vectors of the two points carry relative rounding errors of a few eps in coordinates of size
+    # cosh R, which displaces each point by <~ eps cosh^2 R (the conditioning of the INPUT); the distance is demanded to
+    # that accuracy -- not to the sqrt(2 eps cosh^2 R) of an arccosh(<x,y>) evaluated at 1 + rounding -- and it must
+    # be a finite, non-negative number, never NaN
     zero_class = 0
     for s in FAR_NEAR:
         w2 = far_oracle(R + s, u)
         delta = 16.0 * EPS * math.cosh(R) * math.cosh(R + s)
         # + displacement of a point entered in Klein/Poincare/half-space coordinates (1-|k|^2 known to eps cosh^2 R)
-        tol = acosh_tol(s, delta) + 32.0 * EPS * math.cosh(R + s) ** 2 + 1e-9
+        tol = 8.0 * delta + 32.0 * EPS * math.cosh(R + s) ** 2 + 1e-9
         others = [("the same object", pt)] if s == 0.0 else []
         others += [(("an equal copy built from %s coordinates" % m2) if s == 0.0 else
                     ("the point at distance %g further out, built from %s coordinates" % (s, m2)), build(w2[m2], m2)) for m2 in FAR_START]
@@ -722,6 +745,8 @@ def case_far(case):
                     v.append({"key": "far/near/nan/%s" % cls, "msg": "%s: distance to %s%s is NaN (expected %g)" % (where, label, order, s)})
                 elif not (np.isfinite(d) and d >= 0.0):
                     v.append({"key": "far/near/not-finite-nonnegative/%s" % cls, "msg": "%s: distance to %s%s is %r" % (where, label, order, d)})
+                elif other is pt and not d <= TOL:
+                    v.append({"key": "far/near/value/same-object", "msg": "%s: distance to itself%s is %r (the same object on both sides: expected 0, tol %.1g)" % (where, order, d, TOL)})
                 elif not abs(d - s) <= tol:
                     v.append({"key": "far/near/value/%s" % cls, "msg": "%s: distance to %s%s is %r, expected %g (tol %.3g)" % (where, label, order, d, s, tol)})
                 elif s == 0.0 and d == 0.0:
@@ -903,14 +928,18 @@ def case_close(case):
 
     ch = [1.0 / math.sqrt(1.0 - float(p @ p)) for p in pts]            # cosh of the distance from the origin
     T = np.array([[0.0 if i == j else close_truth(pts[i], pts[j]) for j in range(N)] for i in range(N)])
-    # |<x,y>| of the two unit hyperboloid vectors is cosh d + e, |e| <= a few eps cosh R_x cosh R_y (measured <= 2);
-    # rounding of the input coordinates moves each point by <= ~50 eps in every model (|k| <= 0.91)
-    TOLM = np.array([[acosh_tol(T[i, j], 16.0 * EPS * ch[i] * ch[j]) + 1e-13 + 1e-9 * T[i, j] for j in range(N)] for i in range(N)])
-    # the five closed-form metrics on oracle coordinates: each carries the same arccosh conditioning
+    # the library's distance is held to the conditioning of its INPUT: the unit hyperboloid vectors carry a few eps of
+    # relative rounding in coordinates of size cosh R, i.e. each point is known to ~eps cosh^2 R (measured: |d - truth| <=
+    # 34 eps cosh R_x cosh R_y over all model pairs); rounding of the input coordinates moves each point by
+    # <= ~50 eps in every model (|k| <= 0.91)
+    TOLM = np.array([[16.0 * EPS * ch[i] * ch[j] + 1e-13 + 1e-9 * T[i, j] for j in range(N)] for i in range(N)])
+    # a closed-form model metric EVALUATED IN FLOATING POINT (by the oracle here) is arccosh(1 + d^2/2 + e), |e| <= a few
+    # eps cosh R_x cosh R_y: it carries the arccosh conditioning sqrt(2 e) resp. 2 e / sinh d, and is compared in that class
+    TOLCF = np.array([[acosh_tol(T[i, j], 16.0 * EPS * ch[i] * ch[j]) + 1e-13 + 1e-9 * T[i, j] for j in range(N)] for i in range(N)])
     orac = {m: np.array([[float(hyp.dist_in_model(m, hyp.klein_to(m, pts[i]), hyp.klein_to(m, pts[j]))) for j in range(N)]
                          for i in range(N)]) for m in hyp.MODELS}
     for m, om in orac.items():
-        if not np.all(np.abs(om - T) <= TOLM):
+        if not np.all(np.abs(om - T) <= TOLCF):
             raise AssertionError("HARNESS: oracle %s metric disagrees with the cancellation-free form: %r vs %r" % (m, om.tolist(), T.tolist()))
 
     def fresh(i, a):
@@ -943,7 +972,7 @@ def case_close(case):
             wrong.add((i, a, j, b))
         else:
             for m, om in orac.items():
-                if not abs(d - om[i, j]) <= 2.0 * TOLM[i, j]:
+                if not abs(d - om[i, j]) <= 2.0 * TOLCF[i, j]:
                     add("close/model-metric/%s/%s" % (m, cls),
                         "%s = %.12g, closed-form %s metric on oracle coordinates gives %.12g" % (who, d, m, om[i, j]))
         return d
@@ -961,9 +990,9 @@ def case_close(case):
             t += 1
             if d == d and i <= j and (i, a, j, b) not in wrong:
                 for m in hyp.MODELS:                       # the model's own metric on the coordinates the library reports
-                    dm = float(hyp.dist_in_model(m, P.coords(m), Q.coords(m)))
+                    dm = float(dist_own(m, P.coords(m), Q.coords(m)))
                     t += 2
-                    if not abs(d - dm) <= 2.0 * TOLM[i, j]:
+                    if not abs(d - dm) <= 2.0 * TOLCF[i, j]:      # NaN (hyperboloid coordinates on different sheets) fails too
                         add("close/own-coordinates/%s/%s" % (m, cls),
                             "H^%d d(%s, %s) = %.12g, closed-form %s metric on the library's own coordinates gives %.12g" % (
                                 n, name(i, a), name(j, b), d, m, dm))
@@ -1141,7 +1170,9 @@ def run(ctx):
                 "every ordered pair x every (model, representative)^2, every triple, every composite shape. "
                 "Non-trivial: a history with >= 1 transition; a composite with > 1 unit")
     ctx.assume("interior points have Klein radius <= %.2f; ideal directions are >= 0.2 rad away from the half-space point at infinity" % rmax)
-    ctx.assume("hyperboloid coordinates are compared up to the sheet (+-x): the library keeps the sign of the given representative")
+    ctx.assume("hyperboloid coordinates READ from the library are compared exactly with the future-sheet vector (x0 > 0, <x,x> = -1) and its own "
+               "metric is arccosh(-<x,y>) without absolute value; hyperboloid coordinates GIVEN to a constructor may lie on either sheet (variant "
+               "hyperboloid*-1: the vector is then just another representative of the projective point)")
     ctx.assume("projective coordinates are compared up to a non-zero scalar")
     ctx.assume("hyperboloid coordinates of ideal points are not read (undefined)")
     ctx.assume("all input coordinates are floats (float64 everywhere; the caller-arrays section adds float32 arrays and integer-valued "
@@ -1149,9 +1180,13 @@ def run(ctx):
     ctx.tolerances["coords"] = "1e-9*(1+|value|): chart maps are well conditioned for |k| <= %.2f (measured error <= 1e-13)" % rmax
     ctx.tolerances["ideal coords"] = ("1e-6*(1+|value|)^2 for Poincare/half-space coordinates of ideal points: sqrt|1-|k|^2| of a "
                                       "rounded unit vector is ~1e-8 (measured 5e-8)")
-    ctx.tolerances["distance"] = "1e-9*(1+d) for distinct lattice points (d >= 0.05); 1e-6 for d(x,x) (arccosh near 1: sqrt(2 eps) = 2e-8)"
-    ctx.tolerances["symmetry"] = "1e-9 for distinct lattice points, 1e-6 for d(x,x) (both values are arccosh of 1 +- eps)"
-    ctx.tolerances["triangle"] = "1e-7 slack"
+    ctx.tolerances["distance"] = ("1e-9*(1+d) for distinct lattice points (d >= 0.05) AND for d(x,x) = 0 (x against itself, against an equal point built "
+                                  "through any other model / representative): an equal point entered through another model is displaced by <= ~50 eps "
+                                  "cosh^2 R <= 6e-13 at |k| <= 0.99, measured d(x,x) <= 2e-14; sqrt(2 eps) = 2.1e-8, the quantum of arccosh at 1 + rounding, "
+                                  "is NOT tolerated (a distance evaluated as arccosh|<x,y>| near 1 fails). Only the closed-form model metrics that the "
+                                  "ORACLE evaluates in floating point at equal points are compared in the 1e-6 class")
+    ctx.tolerances["symmetry"] = "1e-9 (also for d(x,x))"
+    ctx.tolerances["triangle"] = "1e-9 slack (distinct lattice points: the three distances carry errors <= 1e-13)"
 
     roots = []
     lat = {}
@@ -1199,13 +1234,17 @@ def run(ctx):
                          "(model, representative)^2": "%d re-used objects, %d x (variant, variant+4) fresh objects" % (len(CLOSE_VARIANTS) ** 2, len(CLOSE_VARIANTS)),
                          "per case": "all ordered pairs incl. x=x, symmetry, all triples of (point, variant), composite vs shifted composite"})
     ctx.assume("close clusters: centres of Klein radius <= 0.9, separations 1e-6 .. 1e-2 (so distances >= 5e-7)")
-    ctx.tolerances["close pairs"] = ("|d - truth| <= min(sqrt(2 e), 2 e / sinh d) + 1e-13 + 1e-9 d with e = 16 eps cosh R_x cosh R_y the rounding of "
-                                     "the Minkowski product of unit vectors (measured <= 2 eps cosh cosh): relative error ~ eps / d^2, i.e. "
-                                     "<= 1.5e-8 absolute at d = 1e-6 near the origin; closed-form model metrics (same conditioning) at twice that; "
-                                     "triangle slack = sum of the three tolerances")
+    ctx.tolerances["close pairs"] = ("|d - truth| <= e + 1e-13 + 1e-9 d with e = 16 eps cosh R_x cosh R_y <= 2e-14: the conditioning of the INPUT (unit "
+                                     "hyperboloid vectors known to a few eps relative; measured |d - truth| <= 1.2 eps cosh R_x cosh R_y from projective / hyperboloid "
+                                     "input and <= 34 eps cosh R_x cosh R_y across all models, i.e. <= 0.025 of the tolerance over 8 seeds), so nearby distinct points have their small positive distance to ~1e-13 absolute, d(x,x) = 0 "
+                                     "to 1e-13, symmetry at twice that and the triangle inequality with slack = sum of the three tolerances (~3e-13). "
+                                     "The arccosh conditioning min(sqrt(2 e), 2 e / sinh d) (1.5e-8 at d = 1e-6) is granted only to closed-form model "
+                                     "metrics evaluated in floating point (oracle coordinates / the library's own coordinates), at twice that")
     ctx.tolerances["far self/close distances"] = ("d(x,x), d(x, equal copy from another model), d(x, same ray s further) for R <= 14: "
-                                                  "min(sqrt(2 e), 2 e / sinh s) + 32 eps cosh^2 R + 1e-9, e = 16 eps cosh^2 R (measured "
-                                                  "<= 1.5 sqrt(2 eps) cosh R); finite, >= 0 and not NaN unconditionally")
+                                                  "128 eps cosh R cosh(R+s) + 32 eps cosh^2 (R+s) + 1e-9 (conditioning of the input: each point is known "
+                                                  "to ~eps cosh^2 R; measured <= 16 eps cosh^2 R over 8 seeds; the sqrt(2 eps) cosh R of an arccosh at 1 + "
+                                                  "rounding is not tolerated for R <= 12); x.distance(x) "
+                                                  "of one object <= 1e-9 at every R; finite, >= 0 and not NaN unconditionally")
 
     ctx.product("point-histories", "checks.c01:case_point_history", list(point_history_cases((2, 3) if q else (1, 2, 3, 4), seed)), chunk=32,
                 domains={"ops": PH_OPS, "sequences": "all op sequences of length <= 3 not ending in a query", "roots": "a (3,) composite of interior units, and one mixing interior units with an ideal unit",
